@@ -27,7 +27,9 @@ def run(ctx):
     E.rule_no_empty_frame(res, "C07-R2", m)
     E.rule_empty_batch(res, "C07-R3", m)
     E.rule_one_length(res, "C07-R4", m)
+    E.rule_header_fully_stamped(res, "C07-R4", m, only=("payload length",))  # the declared length is stamped on every path of the header writer, whatever the flag
     E.rule_segment_source_advances(res, "C07-R5", m)
+    E.rule_puts_are_flushed(res, "C07-R5", m)  # every payload byte appears: what was put is handed out
     E.rule_writes_inside_frame(res, "C07-R6", m)
     E.rule_state_reset(res, "C07-R7", "C07-R7", m)
     E.rule_free_count_writers(res, "C07-R1", m)
